@@ -283,7 +283,7 @@ def _run(case, NXCBM, NetworkXADMGraph):
 
     def sources_intact(prefix, ctx):
         for g in gids:
-            if S.canon(models[g]) != src[g]:
+            if S.canon(models[g], []) != src[g]:
                 bad(f"{prefix}/source-modified", f"{ctx}: source model {g} changed")
 
     def store_ids(prefix, ctx, extra):
@@ -391,11 +391,11 @@ def _run(case, NXCBM, NetworkXADMGraph):
             if not order:
                 labels.append("snapshot-of-empty-skipped")
                 continue
-            before = S.canon(cbm)
+            before = S.canon(cbm, [])
             box = []
             if not call(op, lambda: box.append(cbm.snapshot()), ctx):
                 break
-            if S.canon_of_id(storage, box[0]) != before:
+            if S.canon_of_id(storage, box[0], []) != before:
                 bad("C14/snapshot/differs", f"{ctx}: the snapshot is not a copy of the combined model")
             snaps.append((box[0], list(order), before))
         else:
@@ -405,7 +405,7 @@ def _run(case, NXCBM, NetworkXADMGraph):
             if not call(op, lambda: cbm.rollback(graph_id=sid), f"{ctx} to the state {o} from {order}"):
                 break
             order = list(o)
-            if S.canon(cbm) != raw:                                        # clause 6: exact
+            if S.canon(cbm, []) != raw:                                    # clause 6: exact
                 bad("C14/rollback/not-restored", f"{ctx}: combined model differs from the snapshot taken at {o}")
             if sid in S.graph_ids(storage):
                 bad("C14/rollback/snapshot-not-consumed", f"{ctx}: snapshot graph still present")
